@@ -9,19 +9,19 @@ TB = "trusted: rustc 1.97-nightly front end (resolution, type check, MIR constru
 CHECKS = {
     "C08": dict(
         category="proof",
-        text="Every sink write reachable from Program::serialize / the writing CLI actions is a complete write (write_all/write_fmt) or a Write::write whose count is used, local Write impls forward unchanged, and no Result on the path is dropped; with std's Write contract this gives 'all bytes or an error' for every short-write behaviour — the property's whole quantifier.",
-        note=TB + "; the write_all/write_fmt contract; flush-on-drop errors of BufWriter are outside the property's quantifier",
-        technique="static analysis: MIR call-graph reachability + def-use of Write::write counts and Result values on type-checked HIR",
+        text="Every sink write reachable from Program::serialize / the writing CLI actions is a complete write (write_all/write_fmt) or a partial write (write/write_vectored) that is provably resumed — std's resume loop, or byte accounting of the enclosing function by symbolic execution with linear arithmetic over the returned count (anything else is reported as 'cannot show') —, local Write impls forward write/flush unchanged, no Result on the path is dropped, and every buffering writer a function owns and writes to is flushed after the last write with the Result checked (a drop-time flush swallows the error). With std's Write contract this gives 'all bytes or an error' for every short-write and every failing behaviour of the sink.",
+        note=TB + "; the write_all/write_fmt/flush contract; symbolic executor + std models for the accounting rule",
+        technique="static analysis: MIR call-graph reachability + def-use of Write::write counts and Result values on type-checked HIR + symbolic byte accounting of partial writes + must-flush ownership rule for buffering writers",
         ref="DESIGN.md §3 C08"),
     "C10": dict(
         category="other",
-        text="Structural error discipline over everything reachable from main: no Result dropped or swallowed (enumerated discard idioms), no exit/abort/catch_unwind/stderr-on-success, no user unsafe incl. the generated parser, every call-graph cycle listed with a checked bound (parent field construction-only; on-path guard for rendering through mutable heap storage), print is atomic (no failure exit after an observable write). Necessary conditions of the behaviour for every program; native stack bytes, malformed-source classes and stderr text are not decided.",
+        text="Structural error discipline over everything reachable from main: no Result dropped or swallowed (enumerated discard idioms), no exit/abort/catch_unwind/stderr-on-success, no user unsafe incl. the generated parser, every call-graph cycle listed with a checked bound (parent field construction-only; on-path guard for rendering through mutable heap storage), print is atomic (no failure exit after an observable write), program output is written through (no buffering past a fault), and no faulting instruction is compiled away when a value is discarded (keep=false templates compile the same faulting instructions and children as keep=true). Unlisted recursive components are accepted only as structural recursion over the syntax tree (every call cycle descends to a sub-tree binding). Necessary conditions of the behaviour for every program; native stack bytes, malformed-source classes and stderr text are not decided.",
         note=TB + "; panic=unwind; expect/unwrap exit with status 101 and a message on stderr",
         technique="static analysis: Result def-use discipline on HIR, call-graph SCC census with guard recogniser, who-may-write census, structured may-follow ordering in eval_print",
         ref="DESIGN.md §3 C10"),
     "C11": dict(
         category="other",
-        text="Determinism as absence of sources: exact census that no HashMap/HashSet order-exposing operation, no clock/env/pid/hash-seed/address/thread source (other than the timestamp confined to the heap-log File), no cfg!(debug_assertions)/debug_assert, and no profile-dependent arithmetic on FML values or CLI numerics occurs in code reachable from compile/serialize/load/VM/disassembler. Index/length arithmetic is exempt by provenance (listed per site), which is judgement — hence not 'proof'.",
+        text="Determinism as absence of sources: exact census that no HashMap/HashSet order-exposing operation, no clock/env/pid/hash-seed/address/thread source (other than the timestamp confined to the heap-log File), no cfg!(debug_assertions)/debug_assert, and no profile-dependent arithmetic on FML values or CLI numerics occurs in code reachable from compile/serialize/load/VM/disassembler; the Cargo profiles agree on the panic strategy. Index/length arithmetic is exempt by provenance (listed per site), which is judgement — hence not 'proof'.",
         note=TB + "; std/indexmap/third-party crates deterministic for equal inputs; LLVM computes the same results in both profiles for profile-independent operations",
         technique="static analysis: call-graph-scoped census + taint of CLI numerics + operator/operand-type classification on HIR",
         ref="DESIGN.md §3 C11"),
@@ -54,7 +54,7 @@ CHECKS.update({
         ref="DESIGN.md §3 C12"),
     "C13": dict(
         category="other",
-        text="Evaluation order decided on the templates: along every control-flow path of every arm's template the recursive compiles occur in S2's order exactly once (list children iterated forwards), the conditional's branches hang off the truthy/falsy edges of Branch, the loop's path language is cond (body cond)*, the compound-array arm builds exactly the documented rewrite (size once and first, counter from 0 step 1 while < size, initializer once per iteration before the store) and only side-effect-free initializer kinds are evaluated once; VM-side orientation (pop_sequence, frames, print, object slots) from the handler templates. Sound for the ordering statement relative to S1.",
+        text="Evaluation order decided on the templates: along every control-flow path of every arm's template the recursive compiles occur in S2's order exactly once (list children iterated forwards), the conditional's branches hang off the truthy/falsy edges of Branch, the loop's path language is cond (body cond)*, the compound-array arm builds exactly the documented rewrite (size once and first, counter from 0 step 1 while < size, initializer once per iteration before the store) and only side-effect-free initializer kinds are evaluated once; VM-side orientation (pop_sequence, frames, print, object slots) from the handler templates; C02's label discipline (every jump reaches the label of its own construct) is evaluated as a presupposition. Sound for the ordering statement relative to S1.",
         note=TB + "; straight-line VM execution trusted",
         technique="static analysis: symbolic execution into templates, CFG path-language check, structural matching of the synthetic rewrite AST",
         ref="DESIGN.md §3 C13"),
@@ -69,26 +69,26 @@ CHECKS["C05"] = dict(
 
 CHECKS["C03"] = dict(
     category="other",
-    text="Inverse-ness decided as agreement of two syntax-directed templates: writer (Program::serialize ↓) and reader (Program::from_bytes ↓) are executed symbolically down to write_all/read_exact; for the 7 constant kinds, the 17 opcodes and the program frame the extracted layouts coincide token by token (tag, field order and destination, width, endianness, counts, element kinds); tag tables injective and mutually inverse; primitive pairs inverse by construction; narrowing casts range-asserted; loader appends method code in pool order while the writer emits each method's own range forwards; labels derived by one shared function. Necessary and, with the primitive rules, essentially sufficient at the byte level; 'same behaviour when executed' follows only together with C05.",
+    text="Inverse-ness decided as agreement of two syntax-directed templates: writer (Program::serialize ↓) and reader (Program::from_bytes ↓) are executed symbolically down to write_all/read_exact; for the 7 constant kinds, the 17 opcodes and the program frame the extracted layouts coincide token by token (tag, field order and destination, width, endianness, counts, element kinds); tag tables injective and mutually inverse; primitive pairs inverse by construction; narrowing casts range-asserted; loader appends method code in pool order while the writer emits each method's own range forwards; labels derived by one shared function; the loaded pool holds the file's constants one-to-one in file order, no sequence passes through a reordering/deduplicating collection, decoded numbers reach their fields unchanged, and the CLI's input reader is byte-transparent (file/stdin under Box/BufReader, or a Cursor over the bytes as read). Necessary and, with the primitive rules, essentially sufficient at the byte level; 'same behaviour when executed' follows only together with C05.",
     note=TB + "; to_le_bytes/from_le_bytes mutually inverse; symbolic executor + std models",
     technique="static analysis: symbolic execution of serializer and loader into layout templates + token-wise agreement, tag-table inversion, cast/assert census",
     ref="DESIGN.md §3 C03")
 CHECKS["C04"] = dict(
     category="other",
-    text="Writer AND reader layouts (extracted by symbolic execution down to write_all/read_exact, per constant kind, per opcode and for the program frame) are each compared with S3, an independent grammar written from the property statement and the Feeny opcode numbering, and with the numbers in the doc comments — so a symmetric change of width, endianness, tag, field order or 'length in chars' is caught; nothing is written after the entry index and the compile action writes nothing else. Intended sound for 'every emitted file is exactly …' and for the reader accepting exactly that grammar.",
+    text="Writer AND reader layouts (extracted by symbolic execution down to write_all/read_exact, per constant kind, per opcode and for the program frame) are each compared with S3, an independent grammar written from the property statement and the Feeny opcode numbering, and with the numbers in the doc comments — so a symmetric change of width, endianness, tag, field order or 'length in chars' is caught; nothing is written after the entry index, the compile action writes nothing else and truncates its output file; the loaded pool holds the file's constants one-to-one in order and the input reader is byte-transparent. Intended sound for 'every emitted file is exactly …' and for the reader accepting exactly that grammar.",
     note=TB + "; S3 grammar (DESIGN A.3)",
     technique="static analysis: symbolic execution into layout templates + comparison with an independent layout grammar",
     ref="DESIGN.md §3 C04")
 
 CHECKS["C07"] = dict(
     category="other",
-    text="The grammar file is analysed as source: operator strata and their operator sets (13 operators, one level each) equal the README's precedence table; every level's action is the left fold from_binary_expression whose step builds CallMethod{object: acc, name: spelling(op), arguments: [next]} (HIR); terminal ↦ Operator ↦ as_str is the identity; index sugar builds AccessArray/AssignArray in source order; dangling else resolved by the open/closed parameterisation; skip terminals have empty actions and all five regex terminals are language-equivalent (NFA→DFA over an abstract alphabet) to the reference regexes; LALR(1) conflict-freedom by LALRPOP at build time. Partial by design: print→reparse idempotence and decoration-insensitivity at every token boundary are language-level statements over all inputs and are NOT decided (lexer/unambiguity rules are necessary conditions only).",
+    text="The grammar file is analysed as source: operator strata and their operator sets (13 operators, one level each) equal the README's precedence table; every level's action is the left fold from_binary_expression whose step builds CallMethod{object: acc, name: spelling(op), arguments: [next]} (HIR); terminal ↦ Operator ↦ as_str is the identity, and the `Operator` nonterminal used by `a.op(b)` / `function op (x)` is the same table as the infix levels; index sugar builds AccessArray/AssignArray in source order; dangling else resolved by the open/closed parameterisation; skip terminals have empty actions and all five regex terminals are language-equivalent (NFA→DFA over an abstract alphabet) to the reference regexes; LALR(1) conflict-freedom by LALRPOP at build time. Partial by design: print→reparse idempotence and decoration-insensitivity at every token boundary are language-level statements over all inputs and are NOT decided (lexer/unambiguity rules are necessary conditions only).",
     note=TB + "; LALRPOP's conflict check and longest-match lexer; S6 from the README",
     technique="static analysis: structural analysis of the LALRPOP grammar + regular-language equivalence of lexer regexes + HIR rules on the AST builders",
     ref="DESIGN.md §3 C07")
 CHECKS["C09"] = dict(
     category="other",
-    text="The built-in operations are finite decision tables. First-match pattern semantics (or-patterns, guards) are evaluated over {every spelling that occurs, OTHER} × {Null, Integer, Boolean, Reference} for the three dispatch tables; every cell's action — a closed form over receiver and argument whose meaning is fixed by the operator/method identity — equals S4, including Feeny spellings and operand order; argument count ≠ 1 fails first. Because actions are closed forms over i32 this decides the tables for all operand values. Build independence is decided at the operator level: plain + - * / unary - on i32 inherit overflow checks and are rejected (wrapping_* required); / and % check unconditionally.",
+    text="The built-in operations are finite decision tables. First-match pattern semantics (or-patterns, guards) are evaluated over {every spelling that occurs, OTHER} × {Null, Integer, Boolean, Reference} for the three dispatch tables; every cell's action — a closed form over receiver and argument whose meaning is fixed by the operator/method identity — equals S4, including Feeny spellings and operand order; argument count ≠ 1 fails first; an operator application is compiled whether or not its value is used (failing is an effect). Because actions are closed forms over i32 this decides the tables for all operand values. Build independence is decided at the operator level: plain + - * / unary - on i32 inherit overflow checks and are rejected (wrapping_* required); / and % check unconditionally.",
     note=TB + "; Rust operator semantics on i32; LLVM",
     technique="static analysis: match-table extraction + finite first-match evaluation + operator/operand-type census",
     ref="DESIGN.md §3 C09")
@@ -107,13 +107,13 @@ CHECKS["C01"] = dict(
     ref="DESIGN.md §3 C01")
 CHECKS["C06"] = dict(
     category="other",
-    text="Explicitly partial: decided are the serde derive/attribute facts of the AST types, the per-format crate tables in both directions, extension/name tables vs S7 and their mutual inverse-ness, the format-selection logic of the parse and compile actions (explicit flag, else extension), one shared bytecode::compile, the parse action's single complete write, and that no stage boundary deserialises the recursive AST through a depth-limited entry point (three genuine findings on file). NOT decided: string fidelity through serde_json/serde_yaml/serde_lexpr for all Unicode strings (third-party behaviour), the bash wrapper, stdin/stdout plumbing at run time.",
+    text="Explicitly partial: decided are the serde derive/attribute facts of the AST types, the per-format crate tables in both directions, extension/name tables vs S7 and their mutual inverse-ness, the format-selection logic of the parse and compile actions (explicit flag, else extension), one shared bytecode::compile, the parse action's single complete write into a truncated output, that serialize/deserialize return the format crate's own result for exactly their argument (symbolic execution: no post-processing of the text), that stage inputs are decoded as a whole (no chunk-wise decoding), and that no stage boundary deserialises the recursive AST through a depth-limited entry point (three genuine findings on file). NOT decided: string fidelity through serde_json/serde_yaml/serde_lexpr for all Unicode strings (third-party behaviour), the bash wrapper, stdin/stdout plumbing at run time.",
     note=TB + "; serde derive generates mutually inverse impls for attribute-free types; third-party format crates round-trip their own output (not analysed)",
     technique="static analysis: ADT/derive/attribute facts from the expanded AST, match-table extraction, call-graph and who-may-call census of depth-limited deserialisers",
     ref="DESIGN.md §3 C06")
 CHECKS["C17"] = dict(
     category="other",
-    text="The listing is the Display rendering of the loaded Program; decided from the format_args templates and resolved arms: every non-derived Program field is formatted in the S8 order with the S8 headers; in each of the 7+17 arms every field of the variant flows into the output and indices are printed; mnemonics equal S8; the per-variant token patterns (literal words interleaved with operand classes whose textual shape comes from the operand types' own Display templates) are pairwise non-unifiable, so for strings without raw line breaks each line determines its item; the disassemble action prints exactly the loaded program. An actual read-back needs execution and is not performed.",
+    text="The listing is the Display rendering of the loaded Program; decided from the format_args templates and resolved arms: every non-derived Program field is formatted in the S8 order with the S8 headers; in each of the 7+17 arms every field of the variant flows into the output and indices are printed; mnemonics equal S8; the per-variant token patterns (literal words interleaved with operand classes whose textual shape comes from the operand types' own Display templates) are pairwise non-unifiable, so for strings without raw line breaks each line determines its item; the disassemble action prints exactly the loaded program, and the loaded program is the program in the file (C04's reader obligations, incl. pool integrity, evaluated as a presupposition). An actual read-back needs execution and is not performed.",
     note=TB + "; S8 from the listing examples shipped in tests/**/*.bc.txt",
     technique="static analysis: format_args template capture + binding-use coverage + pairwise non-unifiability of token patterns",
     ref="DESIGN.md §3 C17")
